@@ -394,6 +394,31 @@ def c19_strings_are_strings():
         run_case("templates:bad-data-text", dict(d, f="apply_serialized"), lambda: jsonlogic_rs.apply_serialized('{"var":""}', '["' + t), '{"var":""}', '["' + t)
 
 
+def c19_result_ownership():
+    """what a call returns belongs to the caller: changing a returned list / dict afterwards does not change what
+    later calls return (results are built per call, never shared)"""
+    if shard != 0:
+        return
+    cases = [({"missing": ["name", "email"]}, {"name": 1, "email": 2}), ({"filter": [{"var": "xs"}, False]}, {"xs": [1, 2]}), ({"merge": []}, None), ({"var": ""}, {}), ({"var": ""}, []), ({"var": "o"}, {"o": {}}),
+             ({"var": ""}, [1]), ({"var": ""}, {"a": 1}), ({"map": [[], 1]}, None), ({"var": ""}, ""), ({"var": ""}, None), ({"var": ""}, 0), ({"var": ""}, True), ({"cat": []}, None), ({"missing_some": [1, []]}, None)]
+    for round_ in range(3):
+        for rule, data in cases:
+            rt, dt = json.dumps(rule), json.dumps(data)
+            for name, fn in (("apply", lambda: jsonlogic_rs.apply(rule, data)), ("apply_serialized", lambda: jsonlogic_rs.apply_serialized(rt, dt)), ("apply_serialized(text only)", lambda: jsonlogic_rs.apply_serialized(json.dumps(jsonlogic_rs.apply(rule, data))))):
+                holder = []
+                def call_and_keep(fn=fn, holder=holder):
+                    r = fn()
+                    holder.append(r)
+                    return r
+                run_case("ownership:%s" % name, dict(f=name, rule=ascii(rule), data=ascii(data), round=round_), call_and_keep, rt if name != "apply_serialized(text only)" else json.dumps(json.loads(oracle.ask(rt, dt).get("ok", "null"))), dt if name != "apply_serialized(text only)" else "null")
+                # the caller now edits what it got
+                for r in holder:
+                    if isinstance(r, list):
+                        r.append("edited-by-caller")
+                    elif isinstance(r, dict):
+                        r["edited-by-caller"] = True
+
+
 def c19_long_errors():
     """library errors that quote long non-ASCII content must still be ValueError"""
     units = ["é", "€", "水", "😀", "z"]
@@ -622,6 +647,7 @@ try:
         c19_large_twins()
         c19_long_floats()
         c19_strings_are_strings()
+        c19_result_ownership()
     else:
         c01()
 finally:
